@@ -156,6 +156,47 @@ def mapSetSrc (mk : MapKind) := match mk with | .table => tableSetSrc | .tree =>
 def mapRemSrc (mk : MapKind) (kvs : List KV) (ka : Src) : Option (Res (List KV)) :=
   readFirst (.map mk kvs) ka (mapRem kvs)
 
+/-! ## Operands of `concat` and of the constructors
+
+`concat(c, tuple(a…))` and `new(T, …, a…)` take SEVERAL objects at once, each of which may be a stored object.
+
+    List_Concat      `foreach (item in obj) List_Push(self, item)`: item i is read by ITS push — when the items before it
+                     are already constructed and linked at the tail.  An operand that is a node of the receiving List was
+                     resolved to a pointer by the caller's `get` before the call (`CSrc.node j`: absolute position; the
+                     nodes of a List never move and a push changes no existing element)
+    Array_Concat     `nitems += len(obj)`, Array_Reserve_More (realloc), then Array_Alloc + assign per item: an operand
+                     that is a record of the receiving Array is read after the realloc — KF-C04-push-own-element: not
+                     executed (`bad`); operands stored in OTHER containers are read from storage the call does not touch
+    (both)           the operands travel in a Tuple: the same stored object twice makes `foreach` over it diverge
+                     (KF-C04-tuple-dup-iter): not executed (`bad`, `dupOperands`)
+    Array_New / List_New / Table_New / Tree_New
+                     the receiver is being constructed: every operand lives in another container -/
+
+/-- an operand of `concat` seen from the receiving List -/
+inductive CSrc where
+  | obj (p : Nat)       -- a fresh object or an element / key / value of ANOTHER container
+  | node (j : Nat)      -- the node at (absolute) position `j` of the receiving List itself
+deriving DecidableEq, Repr, Inhabited
+
+/-- the payload `assign(item, obj)` reads through the operand pointer while the List holds `cur` -/
+def CSrc.read (cur : List Tok) : CSrc → Option Nat
+  | .obj p => some p
+  | .node j => ((cur[j]?).filter (fun t => t.id != 0)).map (·.pay)
+
+/-- List_Concat from a Tuple of operands: one List_Push per item, in order; `acc` = the elements the earlier pushes have
+    constructed and linked at the tail (operand i is read from `xs ++ acc`); identities in construction order -/
+def listConcatSrc (next : Nat) (xs : List Tok) : List Tok → List CSrc → Option (Res (List Tok))
+  | acc, [] => some { val := xs ++ acc, issued := acc }
+  | acc, a :: rest =>
+    match a.read (xs ++ acc) with
+    | none => none
+    | some p => listConcatSrc next xs (acc ++ [⟨next + acc.length, p⟩]) rest
+
+/-- does the operand lie in the storage of container `c`? -/
+def RArg.inside (c : Nat) : RArg → Bool
+  | .pay _ => false
+  | .ref r => r.c == c
+
 /-! ## The world -/
 
 /-- a call with at least one argument that is a stored object -/
@@ -166,6 +207,9 @@ inductive ACall where
   | rem (a : Ref)
   | mset (k v : RArg)
   | mrem (k : Ref)
+  | concat (items : List RArg)                          -- concat(c, tuple(items…)), at least one item a stored object
+  | newSeq (k : SeqKind) (items : List RArg)            -- new(Array / List, Probe, items…)
+  | newMap (k : MapKind) (pairs : List (RArg × RArg))   -- new(Table / Tree, Probe, Probe, k1, v1, …)
 deriving Repr, Inhabited
 
 /-- the object a reference designates in world `w` (what the caller's `get` / iteration hands over) -/
@@ -182,6 +226,57 @@ def toSrc (w : World) (c : Nat) (r : Ref) : Option Src :=
 def toSrcArg (w : World) (c : Nat) : RArg → Option Src
   | .pay p => some (.obj p)
   | .ref r => toSrc w c r
+
+/-- every operand resolved in world `w` (all or nothing: one reference that designates nothing and no call is made) -/
+def resolveArgs (w : World) : List RArg → Option (List Nat)
+  | [] => some []
+  | a :: rest =>
+    match resolveArg w a, resolveArgs w rest with
+    | some p, some ps => some (p :: ps)
+    | _, _ => none
+
+def resolvePairs (w : World) : List (RArg × RArg) → Option (List (Nat × Nat))
+  | [] => some []
+  | (k, v) :: rest =>
+    match resolveArg w k, resolveArg w v, resolvePairs w rest with
+    | some k, some v, some ps => some ((k, v) :: ps)
+    | _, _, _ => none
+
+/-- an operand of `concat` as the receiving List `c` (holding `xs`) sees it: `get(c, i)` normalises the index against the
+    length BEFORE the call and hands over that node -/
+def toCSrc (w : World) (c : Nat) (xs : List Tok) : RArg → Option CSrc
+  | .pay p => some (.obj p)
+  | .ref r =>
+    if r.c = c then
+      match r.sel with
+      | .elem i =>
+        match normIdx xs.length i with
+        | some j => ((xs[j]?).filter (fun t => t.id != 0)).map (fun _ => CSrc.node j)
+        | none => none
+      | _ => none
+    else (resolve w r).map (fun t => CSrc.obj t.pay)
+
+def toCSrcs (w : World) (c : Nat) (xs : List Tok) : List RArg → Option (List CSrc)
+  | [] => some []
+  | a :: rest =>
+    match toCSrc w c xs a, toCSrcs w c xs rest with
+    | some s, some ss => some (s :: ss)
+    | _, _ => none
+
+/-- identities of the stored objects among the operands -/
+def refIds (w : World) : List RArg → List Nat
+  | [] => []
+  | .pay _ :: rest => refIds w rest
+  | .ref r :: rest => ((resolve w r).map (·.id)).toList ++ refIds w rest
+
+def hasDup : List Nat → Bool
+  | [] => false
+  | x :: xs => xs.contains x || hasDup xs
+
+/-- the same stored object twice among the operands of `concat`: the operands travel in a Tuple, and `foreach` over a Tuple
+    that holds one pointer twice never reaches Terminal (Tuple_Iter_Next finds its place by pointer identity:
+    KF-C04-tuple-dup-iter / KF-C11-tuple-dup) — not executed (`bad`).  The constructors fetch their arguments by index. -/
+def dupOperands (w : World) (items : List RArg) : Bool := hasDup (refIds w items)
 
 def orBad (w : World) (r : Option (World × Obs)) : World × Obs := r.getD (badOp w)
 
@@ -221,6 +316,23 @@ def stepAliased (w : World) (c : Nat) : ACall → World × Obs
     | some (.map mk kvs), some sk =>
       orBad w ((mapRemSrc mk kvs sk).map (fun r => commitMap w c mk r [c]))
     | _, _ => badOp w
+  | .concat items =>
+    if dupOperands w items then badOp w else
+    match lookup w.objs c with
+    | some (.seq .list .probe xs) =>
+      orBad w (((toCSrcs w c xs items).bind (listConcatSrc w.next xs [])).map (fun r => commitSeq w c .list .probe r [c]))
+    | some (.seq .array .probe xs) =>
+      if items.any (RArg.inside c) then badOp w
+      else orBad w ((resolveArgs w items).map (fun ps =>
+        commitSeq w c .array .probe (arrayConcatArgs w.next xs (ps.map Arg.pay)) [c]))
+    | _ => badOp w
+  | .newSeq k items =>
+    if c ≥ maxConts ∨ (lookup w.objs c).isSome then badOp w
+    else orBad w ((resolveArgs w items).map (fun ps =>
+      commitSeq w c k .probe { val := mkFresh w.next ps, issued := mkFresh w.next ps } [c]))
+  | .newMap k pairs =>
+    if c ≥ maxConts ∨ (lookup w.objs c).isSome then badOp w
+    else orBad w ((resolvePairs w pairs).map (fun kvs => commitMap w c k (mapSetMany k w.next [] kvs) [c]))
 
 /-- the plain operation an aliased call amounts to on the code as it is: the references replaced by the payloads they
     resolve to in the state BEFORE the call; `none` where the call is not executed -/
@@ -254,6 +366,16 @@ def lowerCall (w : World) (c : Nat) : ACall → Option Op
     match lookup w.objs c with
     | some (.map _ _) => (resolve w ka).map (fun t => .mrem c t.pay)
     | _ => none
+  | .concat items =>
+    if dupOperands w items then none else
+    match lookup w.objs c with
+    | some (.seq .list .probe _) => (resolveArgs w items).map (fun ps => .typed c (.concat (ps.map Arg.pay)))
+    | some (.seq .array .probe _) =>
+      if items.any (RArg.inside c) then none
+      else (resolveArgs w items).map (fun ps => .typed c (.concat (ps.map Arg.pay)))
+    | _ => none
+  | .newSeq k items => (resolveArgs w items).map (fun ps => .newSeq c k ps)
+  | .newMap k pairs => (resolvePairs w pairs).map (fun kvs => .newMap c k kvs)
 
 /-- operations of an op file: the plain ones of Cello/Own.lean and the aliased calls -/
 inductive AOp where
